@@ -6,7 +6,7 @@ from .. import poly
 from ..poly import Poly
 from ..interp import Arr, Pose, sym_pose, diff_at_zero, Unsupported
 from ..algebra import (POSES, CDIM, POINT_OF, run_obligation, run_tasks, record, ObFail, require_same, nterms,
-                       delta_vec, zero_hook, arr_diff_report)
+                       delta_vec, zero_hook, arr_diff_report, snapshot, scribble)
 
 LEVEL = "proof"
 
@@ -123,7 +123,13 @@ def stale_state_obligation(cls):
         pt = sym_pose(POINT_OF[cls], "pt")
         args = {"oplus": [b], "ominus": [b], "oplus_point": [pt], "inverse": [], "boxplus": []}
         for m, (op, wrt, compact) in METHODS.items():
-            it.call_method(a, m, args[op])
+            r1 = it.call_method(a, m, args[op])
+            seen = snapshot(r1)
+            scribble(r1)                       # the caller owns the returned matrix (J *= weight, J[0, 0] = ...)
+            r2 = it.call_method(a, m, args[op])
+            require_same(r2, seen, "%s.%s: after a caller modified the matrix returned by an earlier call, the method returns a "
+                                   "different matrix (it hands out shared storage instead of a new array)" % (cls, m))
+            scribble(r2)
         a2 = sym_pose(cls, "a2", unit=True)
         a.data[:] = list(a2.data)
         for m, (op, wrt, compact) in METHODS.items():
